@@ -210,13 +210,19 @@ def run_check(pid, tier, seed=0):
                 for r, v, path in to_replay:
                     unconfirmed.append((r, v, path, 'replay build failed'))
             else:
-                # replay in batches (one process per 50 vectors)
+                # replay in batches (one process per 50 vectors; one per vector under the race detector)
                 outs = {}
-                for i in range(0, len(to_replay), 50):
+                bs = 1 if race else 50
+                renv = dict(GOENV, GORACE='halt_on_error=0 exitcode=0', VF_REPEAT='400' if spec.get('stress_replay') else '1') if race else None
+                for i in range(0, len(to_replay), bs):
                     batch = to_replay[i:i + 50]
                     try:
-                        rc, out, err = sh([rexe] + [p for _, _, p in batch], timeout=300)
+                        rc, out, err = sh([rexe] + [p for _, _, p in batch], timeout=300, env=renv)
                         rows = [json.loads(l) for l in out.strip().splitlines() if l.startswith('{')]
+                        if race and rows:
+                            rows[0]['data_race'] = 'WARNING: DATA RACE' in err
+                            if rows[0]['data_race']:
+                                rows[0]['race_report'] = err[err.index('WARNING: DATA RACE'):][:600]
                     except Exception as e:
                         rows = []
                     for j, (r, v, path) in enumerate(batch):
@@ -225,6 +231,8 @@ def run_check(pid, tier, seed=0):
                     res = outs[path]
                     if v['label'] == 'unexpected-panic':
                         ok = res.get('status') == 'panic'
+                    elif v['label'] == 'no-data-race':
+                        ok = bool(res.get('data_race'))
                     else:
                         ok = v['label'] in (res.get('failed') or [])
                     if ok:
